@@ -39,7 +39,9 @@ def validateDomain (b : Basis K) (tol : K) (ts : List K) : Except PyErr (List K)
 def continuity [FloorRing K] (b : Basis K) (tol t0 : K) : Except PyErr (Option ℤ) :=
   let start := b.start
   let stop := b.stop
-  if b.periodic < 0 ∧ (t0 < start ∨ stop < t0) then throw .value
+  -- the range test uses the knot tolerance as well (fix of findings C12 `periodic-rounded-ghost-knots-out-of-range`,
+  -- C14 `loft-periodic-rounded-knots-out-of-range`)
+  if b.periodic < 0 ∧ (t0 < start - tol ∨ stop + tol < t0) then throw .value
   else
     let t := if b.periodic ≥ 0 ∧ (t0 < start ∨ t0 > stop) then
                pmod (t0 - start) (stop - start) + start else t0
